@@ -543,6 +543,27 @@ def expand_card(card, layout):
             out.append((layout.number(text, kind), kind, glue))
         else:
             out.append((text, kind, glue))
+    # TR data card: repeated entries as nR (before any respelling, so that the
+    # repeated entry is the same number)
+    if layout is not None and card and card[0][1] == 'word' \
+            and card[0][0].lstrip('*').lower().startswith('tr') \
+            and layout.rng.random() < layout.p_short:
+        new, k = [out[0]], 1
+        while k < len(out):
+            n = 0
+            while k + n < len(out) and card[k + n][0] == card[k - 1][0] and k > 1:
+                n += 1
+            if n and layout.rng.random() < 0.7:
+                take = layout.rng.randint(1, n)
+                tok = ('' if take == 1 and layout.rng.random() < 0.5 else str(take)) \
+                    + layout.rng.choice('rR')
+                new.append((tok, 'word', out[k + take - 1][2]))
+                layout.used.add('shorthand:tr')
+                k += take
+            else:
+                new.append(out[k])
+                k += 1
+        out = new
     return out
 
 
